@@ -19,7 +19,7 @@ func init() {
 		Decided: "(c) the encoder's and the decoder's header tables are identical to the frozen v2 layout (stream id BE32 @0, seq BE64 @4, closing @12, extra length @13, header 14 bytes, payload at 14) — this is what catches a change applied symmetrically to both sides; " +
 			"(a) the structural facts that imply the round trip: both sides derive the AEAD nonce from header[:NonceSize] of the plaintext header, seal/open the same region with no AAD, key the header cipher with the session key and the last 8 bytes as nonce, in mirrored order (seal before header encryption, header decryption before parsing and opening); the method→(cipher, key slice) table equals the v2 table; " +
 			"(b) padding+tag fits the one-byte length field for every padding draw and the encoded length is at most payload+269, the per-frame maximum is limit−269, and every encoder call site passes a payload no longer than that maximum; the decoder releases exactly in[14 : len(in) − header[13]] on every path; (d) the two buffer-placement modes agree with their call sites; the empty payload is refused first.",
-		NotDecided: "the equality decode(encode(f)) = f as a value; correctness of AES-GCM/ChaCha20-Poly1305/Salsa20 (library); quality of randomness.",
+		NotDecided:  "the equality decode(encode(f)) = f as a value; correctness of AES-GCM/ChaCha20-Poly1305/Salsa20 (library); quality of randomness.",
 		Assumptions: []string{"AEAD.Overhead()=16 and NonceSize()=12 for the three constructors of MakeObfuscator", "common.RandInt(n) ∈ [0,n-1]", "io.Reader.Read returns n <= len(p)"},
 	})
 }
@@ -629,7 +629,10 @@ func c04R4(c *Ctx, rule string) {
 			// payload assignments: stores to <frame>.Payload
 			var val ssa.Value
 			if st, isSt := i.(*ssa.Store); isSt {
-				if fv, _ := fieldVar(st.Addr); fv == a.payload && f != a.deobfuscate && f.Name() != "Write" || (isSt && func() bool { fv, _ := fieldVar(st.Addr); return fv == a.payload && f.Name() == "Write" && strings.Contains(f.String(), "Stream") }()) {
+				if fv, _ := fieldVar(st.Addr); fv == a.payload && f != a.deobfuscate && f.Name() != "Write" || (isSt && func() bool {
+					fv, _ := fieldVar(st.Addr)
+					return fv == a.payload && f.Name() == "Write" && strings.Contains(f.String(), "Stream")
+				}()) {
 					val = st.Val
 				}
 			}
